@@ -46,6 +46,12 @@ fn text_of_tokens<const N: usize>() {
     let t = bp.text(0, &toks);
     let sp = t.span();
     assert!(sp.end() <= at);
+    // a last token that contributes text (word, blank, escaped character) ends the text exactly where it ends
+    match toks[N - 1].kind {
+        TokenKind::Word | TokenKind::Whitespace => assert!(sp.end() == at),
+        TokenKind::Escaped => assert!(sp.end() == at || toks[N - 1].span.len() == 1),
+        _ => {}
+    }
     std::mem::forget(t);
     std::mem::forget(events);
 }
@@ -54,10 +60,4 @@ fn text_of_tokens<const N: usize>() {
 #[kani::unwind(8)]
 fn c03_block_text_1_token() {
     text_of_tokens::<1>()
-}
-
-#[kani::proof]
-#[kani::unwind(8)]
-fn c03_block_text_2_tokens() {
-    text_of_tokens::<2>()
 }
